@@ -206,3 +206,8 @@ def _time_after(eng, fr, st, name, args, rtypes, ins):
 @model("time.NewTimer")
 def _new_timer(eng, fr, st, name, args, rtypes, ins):
     return NotImplemented
+
+
+@model("(error).Error")
+def _error_error(eng, fr, st, name, args, rtypes, ins):
+    return [(st, uf("m.Error", [Ref], Str)(args[0].ref))]
